@@ -163,32 +163,55 @@ def run(prog: Program, col: Collector, tier: str, refs: Optional[Refs] = None, c
 
     # ---------------------------------------------------------------- R18.3
     col.rule("R18.3", "operand order is preserved by lowering, compilation, execution and printing", floor=6)
-    # compile_funsor
+    # compile_funsor: the operations list is whatever is passed third to OpProgram(...); every branch on the node class appends
+    # (op, ids) to it.  Names are found by role, not by spelling.
+    ops_list = None
+    for n in walk_no_nested(cf.node):
+        if isinstance(n, ast.Return) and isinstance(n.value, ast.Call) and refs.resolve(n.value.func) == "funsor.ops.program.OpProgram" and len(n.value.args) == 3 \
+                and isinstance(n.value.args[2], ast.Name):
+            ops_list = n.value.args[2].id
+    if ops_list is None:
+        raise AnalysisError("compile_funsor: cannot find the operations list (third argument of the returned OpProgram)")
     for n in ast.walk(cf.node):
         if isinstance(n, ast.If) and isinstance(n.test, ast.Call) and norm(n.test.func) == "isinstance" and len(n.test.args) == 2:
             cls = norm(n.test.args[1])
             fvar = norm(n.test.args[0])
-            assigns = [a for a in n.body if isinstance(a, ast.Assign) and isinstance(a.targets[0], ast.Name) and a.targets[0].id == "arg_ids"]
-            if not assigns:
+            apps = [c for b in n.body for c in ast.walk(b) if isinstance(c, ast.Call) and isinstance(c.func, ast.Attribute) and c.func.attr == "append"
+                    and norm(c.func.value) == ops_list and len(c.args) == 1 and isinstance(c.args[0], ast.Tuple) and len(c.args[0].elts) == 2]
+            if not apps:
                 continue
-            v = assigns[0].value
+            opx, idx = apps[0].args[0].elts
+            v = idx
+            if isinstance(idx, ast.Name):
+                ds = [a for a in n.body if isinstance(a, ast.Assign) and len(a.targets) == 1 and isinstance(a.targets[0], ast.Name) and a.targets[0].id == idx.id]
+                v = ds[-1].value if ds else None
+            loc = cf.loc(apps[0])
+
+            def fields(t):
+                """[('M', 'attr'), ...] for a tuple display of M[<fvar>.attr] subscripts"""
+                out = []
+                for e in (t.elts if isinstance(t, ast.Tuple) else []):
+                    if isinstance(e, ast.Subscript) and isinstance(e.value, ast.Name) and isinstance(e.slice, ast.Attribute) and norm(e.slice.value) == fvar:
+                        out.append((e.value.id, e.slice.attr))
+                    else:
+                        out.append((None, norm(e)))
+                return out
+
             if cls == "Binary":
-                elts = [norm(e) for e in v.elts] if isinstance(v, ast.Tuple) else []
-                want = [f"ids[{fvar}.lhs]", f"ids[{fvar}.rhs]"]
-                col.check(elts == want, f"{cf.fq}::Binary arg_ids", "(lhs, rhs) in constructor order", f"Binary operands are compiled as {elts}, expected {want}: non-commutative ops compute with swapped operands", cf.loc(assigns[0]))
+                fs = fields(v) if v is not None else []
+                ok = [a for _, a in fs] == ["lhs", "rhs"] and len({m for m, _ in fs}) == 1 and fs[0][0] is not None
+                col.check(ok, f"{cf.fq}::Binary operand ids", "(ids of lhs, ids of rhs) in constructor order",
+                          f"Binary operands are compiled as {[a for _, a in fs]}, expected ['lhs', 'rhs']: non-commutative ops compute with swapped operands", loc)
             elif cls == "Unary":
-                elts = [norm(e) for e in v.elts] if isinstance(v, ast.Tuple) else []
-                col.check(elts == [f"ids[{fvar}.arg]"], f"{cf.fq}::Unary arg_ids", "(arg,)", f"Unary operand compiled as {elts}", cf.loc(assigns[0]))
+                fs = fields(v) if v is not None else []
+                col.check([a for _, a in fs] == ["arg"] and fs[0][0] is not None, f"{cf.fq}::Unary operand ids", "(id of arg,)", f"Unary operand compiled as {[a for _, a in fs]}", loc)
             elif cls == "Tuple":
-                ok = isinstance(v, ast.Call) and norm(v.func) == "tuple" and isinstance(v.args[0], ast.GeneratorExp) and norm(v.args[0].generators[0].iter) == f"{fvar}.args" \
-                    and not v.args[0].generators[0].ifs
-                col.check(ok, f"{cf.fq}::Tuple arg_ids", "elements in f.args order", f"Tuple elements compiled as `{norm(v)}`", cf.loc(assigns[0]))
-            # the op recorded is the term's own op
-            apps = [c for b in n.body for c in ast.walk(b) if isinstance(c, ast.Call) and isinstance(c.func, ast.Attribute) and c.func.attr == "append" and norm(c.func.value) == "operations"]
-            for c in apps:
-                if cls in ("Unary", "Binary") and isinstance(c.args[0], ast.Tuple):
-                    col.check(norm(c.args[0].elts[0]) == f"{fvar}.op" and norm(c.args[0].elts[1]) == "arg_ids", f"{cf.fq}::{cls} op", "records (f.op, arg_ids)",
-                              f"records `{norm(c.args[0])}` for a {cls}", cf.loc(c))
+                g = v.args[0] if isinstance(v, ast.Call) and norm(v.func) == "tuple" and v.args and isinstance(v.args[0], ast.GeneratorExp) else None
+                ok = g is not None and len(g.generators) == 1 and norm(g.generators[0].iter) == f"{fvar}.args" and not g.generators[0].ifs \
+                    and isinstance(g.elt, ast.Subscript) and isinstance(g.generators[0].target, ast.Name) and norm(g.elt.slice) == g.generators[0].target.id
+                col.check(ok, f"{cf.fq}::Tuple operand ids", "elements in f.args order", f"Tuple elements compiled as `{norm(v) if v is not None else None}`", loc)
+            if cls in ("Unary", "Binary"):
+                col.check(norm(opx) == f"{fvar}.op", f"{cf.fq}::{cls} op", "records the term's own op", f"records `{norm(opx)}` as the op of a {cls}", loc)
     # lowering
     lower_rules = {}
     lower_registry = None
@@ -220,11 +243,67 @@ def run(prog: Program, col: Collector, tier: str, refs: Optional[Refs] = None, c
     col.check(good, f"{lb.fq}::rebuild", "Binary(x.op, lower(x.lhs), lower(x.rhs))", "lowering rebuilds a Binary with a different op or swapped operands", lb.loc())
     lc = lower_rules["Contraction"]
     x = lc.positional[0]
-    txt = [norm(n) for n in walk_no_nested(lc.node) if isinstance(n, (ast.Assign, ast.Return))]
-    terms_ok = any(f"for term in {x}.terms" in t or f"map(_lower, {x}.terms)" in t for t in txt) and not any("reversed(" in t or "sorted(" in t or "[::-1]" in t for t in txt)
-    op_ok = any(f"{x}.bin_op" in t for t in txt) and any("functools.reduce(" in t or "reduce(" in t for t in txt)
-    col.check(terms_ok and op_ok, f"{lc.fq}::fold", "terms are folded left to right with the contraction's bin_op",
-              "the contraction is not lowered as a left fold of x.terms with x.bin_op (order or op changed)", lc.loc())
+    # every term of x.terms is lowered and combined with x.bin_op exactly once.  All associative ops are commutative, so the
+    # order of the fold does not matter; what matters is that the collection that is folded covers x.terms without filter
+    # or slice, and that the combining function is Binary(x.bin_op, ., .).  Recognised: functools.reduce over that collection.
+    verdict, why = None, ""
+    locals_ = {}
+    for n in walk_no_nested(lc.node):
+        if isinstance(n, ast.Assign) and len(n.targets) == 1 and isinstance(n.targets[0], ast.Name):
+            locals_.setdefault(n.targets[0].id, []).append(n.value)
+
+    def covers_terms(e, depth=0):
+        """True / False (positively drops or filters) / None (unknown)"""
+        if depth > 4:
+            return None
+        if isinstance(e, ast.Name) and e.id in locals_ and len(locals_[e.id]) == 1:
+            return covers_terms(locals_[e.id][0], depth + 1)
+        if isinstance(e, ast.Call) and isinstance(e.func, ast.Name) and e.func.id in ("list", "tuple", "reversed", "sorted") and len(e.args) >= 1:
+            return covers_terms(e.args[0], depth + 1)
+        if isinstance(e, ast.Call) and isinstance(e.func, ast.Name) and e.func.id == "map" and len(e.args) == 2:
+            return True if norm(e.args[1]) == f"{x}.terms" else None
+        if isinstance(e, (ast.ListComp, ast.GeneratorExp)) and len(e.generators) == 1:
+            g = e.generators[0]
+            if g.ifs:
+                return False
+            it = g.iter
+            if isinstance(it, ast.Call) and isinstance(it.func, ast.Name) and it.func.id in ("reversed", "sorted", "list", "tuple") and it.args:
+                it = it.args[0]
+            if isinstance(it, ast.Subscript) and norm(it.value) == f"{x}.terms":
+                return False
+            if norm(it) != f"{x}.terms":
+                return None
+            uses = any(isinstance(y, ast.Name) and isinstance(g.target, ast.Name) and y.id == g.target.id for y in ast.walk(e.elt))
+            return True if uses else False
+        if isinstance(e, ast.Subscript) and covers_terms(e.value, depth + 1) is not None:
+            return False
+        return None
+
+    def combiner_ok(e, depth=0):
+        if depth > 3:
+            return None
+        if isinstance(e, ast.Name) and e.id in locals_ and len(locals_[e.id]) == 1:
+            return combiner_ok(locals_[e.id][0], depth + 1)
+        if isinstance(e, ast.Call) and norm(e.func) in ("functools.partial", "partial") and len(e.args) == 2 and refs.resolve(e.args[0]) == "funsor.terms.Binary":
+            return norm(e.args[1]) == f"{x}.bin_op"
+        if isinstance(e, ast.Lambda) and isinstance(e.body, ast.Call) and refs.resolve(e.body.func) == "funsor.terms.Binary" and len(e.body.args) == 3:
+            return norm(e.body.args[0]) == f"{x}.bin_op"
+        return None
+
+    for r_ in [n for n in walk_no_nested(lc.node) if isinstance(n, ast.Return) and n.value is not None]:
+        c = r_.value
+        if isinstance(c, ast.Call) and norm(c.func) in ("functools.reduce", "reduce") and len(c.args) in (2, 3):
+            cov, comb = covers_terms(c.args[1]), combiner_ok(c.args[0])
+            if cov is False:
+                verdict, why = False, "the collection that is folded drops, filters or slices x.terms: an operand vanishes from the compiled program"
+            elif comb is False:
+                verdict, why = False, "the terms are combined with an op other than the contraction's bin_op"
+            elif cov and comb:
+                verdict = True
+    if verdict is None:
+        col.unresolved(f"{lc.fq}::fold", "the contraction is not lowered by functools.reduce over the lowered terms; the hand-written fold is not decided", lc.loc())
+    else:
+        col.check(verdict, f"{lc.fq}::fold", "every term of x.terms is lowered and folded with the contraction's bin_op", why, lc.loc())
     # execution and printing
     exec_ok = False
     for st in call.body:
